@@ -10,6 +10,7 @@ import (
 	"fmt"
 	"math/big"
 	"sort"
+	"strconv"
 	"strings"
 	"sync"
 )
@@ -98,11 +99,33 @@ func signedVal(v *big.Int, w int) *big.Int {
 	return new(big.Int).Set(v)
 }
 
+// small constants are looked up without formatting or locking (they dominate concrete execution)
+type smallKey struct {
+	k SortKind
+	w int
+	v int64
+}
+
+var smallConsts sync.Map // smallKey -> *Term
+
 func mkConst(s Sort, v *big.Int) *Term {
+	if v.IsInt64() {
+		iv := v.Int64()
+		if iv >= 0 && (s.K != SBV || s.W >= 63 || iv < int64(1)<<uint(s.W)) {
+			sk := smallKey{s.K, s.W, iv}
+			if t, ok := smallConsts.Load(sk); ok {
+				return t.(*Term)
+			}
+			key := "c|" + strconv.Itoa(int(s.K)) + "|" + strconv.Itoa(s.W) + "|" + strconv.FormatInt(iv, 10)
+			t := TT.intern(key, func() *Term { return &Term{op: "const", sort: s, c: new(big.Int).Set(v)} })
+			smallConsts.Store(sk, t)
+			return t
+		}
+	}
 	if s.K == SBV {
 		v = mask(v, s.W)
 	}
-	key := fmt.Sprintf("c|%d|%d|%s", s.K, s.W, v.String())
+	key := "c|" + strconv.Itoa(int(s.K)) + "|" + strconv.Itoa(s.W) + "|" + v.String()
 	return TT.intern(key, func() *Term { return &Term{op: "const", sort: s, c: new(big.Int).Set(v)} })
 }
 
